@@ -196,13 +196,32 @@ Example C11_nonvacuous :
     lookup tr [5256] MAXFIRST STANDARD = Ok [].
 Proof.
   eexists. eexists. split; [vm_compute; reflexivity|]. split; [vm_compute; reflexivity|].
-  repeat split; vm_compute; reflexivity.
+  (* never `repeat split` here: split on an equation tries eq_refl with the lazy conversion, which runs the
+     reader outside the VM (the check then took longer than the watchdog of a fresh run) *)
+  split; [vm_compute; reflexivity|]. split; [vm_compute; reflexivity|]. split; [vm_compute; reflexivity|].
+  split; vm_compute; reflexivity.
 Qed.
 
 (* the hypotheses of C11_write_read hold for it *)
+Ltac tok_tac :=
+  repeat match goal with
+  | |- _ /\ _ => split
+  | |- True => exact I
+  | |- Forall _ [] => constructor
+  | |- Forall _ (_ :: _) => constructor
+  | |- phrase_ok _ => unfold phrase_ok; cbn [p_str p_freq p_last]
+  | |- leaf_cap _ => unfold leaf_cap
+  | |- exists b, _ => eexists
+  | |- _ <> _ => vm_compute; discriminate
+  | |- _ = _ => vm_compute; reflexivity
+  | |- (_ < _)%N => vm_compute; reflexivity
+  end.
+
 Example C11_nonvacuous_hypotheses : info_ok ex_info /\ root_ok (build ex_es).
 Proof.
-  split; [repeat split|]. right. vm_compute.
-  repeat (split; try discriminate; try reflexivity; try (repeat constructor); try lia);
-    try (eexists; split; [reflexivity|reflexivity]).
+  split; [repeat split|]. right.
+  (* the tree is evaluated once; the capacity facts are then closed one by one (vm_compute on the whole
+     Prop, or `split` on an equation, runs the codec outside the VM and does not come back) *)
+  let t := eval vm_compute in (build ex_es) in change (tok t).
+  cbn [tok kids_of fold_right fst snd]. tok_tac.
 Qed.
